@@ -34,12 +34,15 @@ Amts == {Amt, "2500000", "999", "400000"}
 SpendM == {"delegate", "undelegate", "redelegate", "cancelUnbonding", "ibcTransfer"}
 OwnerM == {"withdrawRewards", "claimRewards", "setWithdrawAddress"}
 ApprM  == {"approve", "increaseAllowance", "decreaseAllowance", "revoke"}
-LeafKinds == {"spend", "spend2", "owner", "appr", "send", "store", "query"}
+IbcM   == {"ibcApprove", "ibcIncrease", "ibcDecrease", "ibcRevoke"}
+LeafKinds == {"spend", "spend2", "owner", "appr", "ibcappr", "send", "store", "query"}
 Leaf(k, id, d, md) ==
     CASE k \in {"spend", "spend2"} -> {Pc(id, md, m, who, a) : m \in SpendM, who \in {"S", "self", "T"}, a \in Amts}
       [] k = "owner" -> {Pc(id, md, m, who, Amt) : m \in OwnerM, who \in {"S", "self", "T"}}
       \* the grantee is the top contract or the calling contract itself (always a tracked account)
       [] k = "appr"  -> {PcG(id, md, m, ge, a) : m \in ApprM, a \in {"3000000", "1000000", Z},
+                                                  ge \in IF d = "call" THEN {"C0", "self"} ELSE {"self"}}
+      [] k = "ibcappr" -> {[PcG(id, md, m, ge, a) EXCEPT !.val = ch] : m \in IbcM, a \in {"3000000", "1000000", "400000"}, ch \in {0, 1},
                                                   ge \in IF d = "call" THEN {"C0", "self"} ELSE {"self"}}
       [] k = "send"  -> {Send(id, to, v) : to \in {"S", "T", "W"}, v \in {"300", "50"}}
       [] k = "store" -> {Store(id)}
@@ -101,13 +104,16 @@ PairsOp(self, o) == (IF o.op = "pc" /\ TypeOf(o.m) # "-" /\ o.who = "S" THEN {<<
                     \* allowance arithmetic needs existing grants of both types the harness passes
                     \cup (IF o.op = "pc" /\ o.m \in ApprM /\ Named(o.grantee, self) # "S"
                           THEN {<<Named(o.grantee, self), "delegate">>, <<Named(o.grantee, self), "undelegate">>} ELSE {})
+                    \cup (IF o.op = "pc" /\ o.m \in IbcM /\ Named(o.grantee, self) # "S" THEN {<<Named(o.grantee, self), "ibc">>} ELSE {})
                     \cup (IF HasBody(o) THEN Pairs(ContractOf(o), o.body) \cup Pairs(ContractOf(o), o.alt) ELSE {})
 Pairs(self, body) == IF body = <<>> THEN {} ELSE PairsOp(self, body[1]) \cup Pairs(self, Tail(body))
 
 \* the allow-list of a grant names one validator: the one the ops of this family address (the destination
 \* for a redelegation), or - kind 4 - another one
 GrantOf(p, k) == [grantee |-> p[1], type |-> p[2], limit |-> IF k = 3 THEN "1500000" ELSE "", expired |-> FALSE,
-                  val |-> IF k = 4 THEN 2 ELSE IF p[2] = "redelegate" THEN 1 ELSE 0]
+                  val |-> IF k = 4 THEN 2 ELSE IF p[2] = "redelegate" THEN 1 ELSE 0,
+                  \* an ICS-20 authorization of kind 2 or 3 has a second allocation (channel-1)
+                  alloc2 |-> IF p[2] = "ibc" /\ k \in {2, 3} THEN "1000000" ELSE ""]
 RECURSIVE SeqOf(_)
 SeqOf(S) == IF S = {} THEN <<>> ELSE LET x == CHOOSE y \in S : TRUE IN <<x>> \o SeqOf(S \ {x})
 
@@ -115,11 +121,11 @@ Emit ==
     /\ fin /\ out = None
     /\ LET ps == PairsOp("S", tree)
            few == IF Cardinality(ps) <= 5 THEN ps ELSE {}
-       IN \E f \in {R([few -> 0..4])} : \E w \in {R({"self", "W"})} : \E own \in {R({0, 1, 2})} :
+       IN \E f \in {R([few -> 0..4])} : \E w \in {R({"self", "W"})} : \E own \in {R({0, 1, 2})} : \E warm \in {R({0, 1, 2})} :
           \* kinds: 0 = no grant, 1, 2 = unlimited, 3 = limited, 4 = other validator only
           LET gs == {GrantOf(p, f[p]) : p \in {q \in few : f[q] # 0}} \cup {GrantOf(p, 1) : p \in ps \ few}
               su == IF own = 2 /\ tree.op = "call" THEN SetupC(w, SeqOf(gs), TRUE) ELSE Setup("a1", w, SeqOf(gs), Z)
-              x  == [setup |-> su, top |-> tree, fam |-> "rand"]
+              x  == [setup |-> [su EXCEPT !.acl = (warm = 2)], top |-> tree, fam |-> "rand"]
           IN /\ out' = [tag |-> "scenario", x |-> x]
              /\ PrintT(<<"SCRIPT", ToJson(x)>>)
     /\ UNCHANGED <<sc, tree, path, nid, fin>>
